@@ -109,6 +109,11 @@ func c14Run(c Case) (Result, error) {
 	}
 	var obs []obsOp
 	var coqOps []string
+	type keptState struct {
+		raw []byte
+		hex string
+	}
+	var kept []keptState
 	produced := 0
 	rejected := false
 	prg, err := random.NewChacha20PRG(unhx(in.Seed), unhx(in.Cust))
@@ -138,6 +143,7 @@ func c14Run(c Case) (Result, error) {
 				continue
 			}
 			st := cur.Store()
+			kept = append(kept, keptState{st, hx(st)}) // NOT copied: a checkpoint must stay valid
 			obs = append(obs, obsOp{"store", hx(st), true})
 			coqOps = append(coqOps, "OStore "+cqs(hx(st)))
 		case "restore":
@@ -161,6 +167,12 @@ func c14Run(c Case) (Result, error) {
 			}
 		default:
 			return Result{}, fmt.Errorf("unknown op %q", op.Op)
+		}
+	}
+	// every state returned by Store() is a value: later calls on the generator must not change it
+	for k, ks := range kept {
+		if hx(ks.raw) != ks.hex {
+			return Result{}, implViolation("the state returned by Store() call #%d (%s) reads %s after later calls on the same generator: Restore of an earlier checkpoint no longer resumes at its offset", k, ks.hex, hx(ks.raw))
 		}
 	}
 	term := fmt.Sprintf("mkCase %s %s %s %s", cqs(in.Seed), cqs(in.Cust), cqbool(ctorOK), cqlist(coqOps))
